@@ -9,3 +9,11 @@ type Stream func(g *hx.Gen, id int) hx.Case
 var Registry = map[string]Stream{}
 
 func register(name string, s Stream) { Registry[name] = s }
+
+// A ReplayStream runs the implementation on inputs generated elsewhere (by the Lean driver:
+// `rrdrv gen <stream> <seed> <n>`), e.g. schedules chosen by the interleaving model.
+type ReplayStream func(in []string, id int) hx.Case
+
+var Replays = map[string]ReplayStream{}
+
+func registerReplay(name string, s ReplayStream) { Replays[name] = s }
